@@ -44,6 +44,7 @@ def find_core_tokens(string, root):
                 in_delimiter_run = None
                 escaped = False
             _code_matches.append(code_match)
+            in_image = False
             i = code_match.end()
             code_match = code_pattern.search(string, i)
             continue
@@ -74,6 +75,7 @@ def find_core_tokens(string, root):
                 in_image = False
         else:
             escaped = False
+            in_image = False
         i += 1
     if in_delimiter_run:
         delimiters.append(Delimiter(start, i if not escaped else i - 1, string))
